@@ -102,6 +102,26 @@ def deg(ctx, a):
     return ctx.field(a, "_deg")
 
 
+def _F(x):
+    return Num.of(Fraction(x))
+
+
+def meeus_21_2(T, t):
+    """IAU 1976 precession parameters zeta, z, theta in arcseconds (Meeus 21.2)"""
+    zeta = (_F("2306.2181") + _F("1.39656") * T - _F("0.000139") * T * T) * t + (_F("0.30188") - _F("0.000344") * T) * t * t + _F("0.017998") * t * t * t
+    z = (_F("2306.2181") + _F("1.39656") * T - _F("0.000139") * T * T) * t + (_F("1.09468") + _F("0.000066") * T) * t * t + _F("0.018203") * t * t * t
+    theta = (_F("2004.3109") - _F("0.85330") * T - _F("0.000217") * T * T) * t - (_F("0.42665") + _F("0.000217") * T) * t * t - _F("0.041833") * t * t * t
+    return zeta, z, theta
+
+
+def meeus_21_5(T, t):
+    """ecliptical precession: eta, Pi (without its constant 174.876384 deg), p in arcseconds (Meeus 21.5)"""
+    eta = (_F("47.0029") - _F("0.06603") * T + _F("0.000598") * T * T) * t + (_F("-0.03302") + _F("0.000598") * T) * t * t + _F("0.000060") * t * t * t
+    pie = _F("3289.4789") * T + _F("0.60622") * T * T - (_F("869.8089") + _F("0.50491") * T) * t + _F("0.03536") * t * t
+    p = (_F("5029.0966") + _F("2.22226") * T - _F("0.000042") * T * T) * t + (_F("1.11113") - _F("0.000042") * T) * t * t - _F("0.000006") * t * t * t
+    return eta, pie, p
+
+
 def P_matrix(zeta_deg, z_deg, theta_deg):
     """direction map of the equatorial precession: v' = rot_z(-z) rot_y(theta) rot_z(-zeta) v"""
     return matmul(rot_z(-radians_(z_deg)), matmul(rot_y(radians_(theta_deg)), rot_z(-radians_(zeta_deg))))
@@ -197,6 +217,9 @@ def h_params(ctx, fn):
     z0 = lambda v: implies(j1 == j2, v == 0)
     ctx.vc("zero interval: zeta = z = theta = 0 (identity rotation)", and_(z0(a12[0]), z0(a12[1]), z0(a12[2])))
     if fn == "precession_equatorial":
+        T, t = (j1 - 2451545) / 36525, (j2 - j1) / 36525
+        for nm, got, want in zip(("zeta", "z", "theta"), a12, meeus_21_2(T, t)):
+            ctx.identity("%s is Meeus' (21.2) polynomial in T (J2000 -> start) and t (start -> final)" % nm, got, want)
         # IAU 1976: the backward parameters are the negated, swapped forward ones, exactly
         ctx.identity("zeta(2->1) == -z(1->2)", a21[0], -a12[1])
         ctx.identity("z(2->1) == -zeta(1->2)", a21[1], -a12[0])
@@ -265,6 +288,9 @@ def h_ecl(ctx):
     ctx.vc("latitude == degrees(atan2(C, sqrt(A^2 + B^2))), in [-90, 90]",
            and_(olat * pi == atan2_(C, S) * 180, olat >= -90, olat <= 90))
     ctx.vc("zero interval: eta = p = 0 (identity)", implies(j1 == j2, and_(eta_poly == 0, p_poly == 0)))
+    T, t = (j1 - 2451545) / 36525, (j2 - j1) / 36525
+    for nm, got, want in zip(("eta", "Pi - 174.876384 deg", "p"), (args[-3][2], args[-2][2], args[-1][2]), meeus_21_5(T, t)):
+        ctx.identity("%s is Meeus' (21.5) polynomial in T and t" % nm, got, want)
 
 
 # ---- orbital elements to another equinox: the new (i, node) are the orbit normal in the new ecliptic, the new argument of
@@ -298,6 +324,10 @@ def h_orbital(ctx):
     out = ctx.call(COORD + "orbital_equinox2equinox", e0, e1, inc, arg, lon)
     orb = ctx.it.info["orb"]
     eta, pie, p = orb["eta"], orb["pie"], orb["p"]
+    dargs = ctx.it.info["dms2deg_args"]
+    Tc, tc = (j0 - 2451545) / 36525, (j1 - j0) / 36525
+    for nm, got, want in zip(("eta", "Pi - 174.876384 deg", "p"), (dargs[-3][2], dargs[-2][2], dargs[-1][2]), meeus_21_5(Tc, tc)):
+        ctx.identity("%s is Meeus' (21.5) polynomial in T and t" % nm, got, want)
     u = radians_(o0 - pie)
     ir, er = radians_(i0), radians_(eta)
     n = (sin_(ir) * sin_(u), -sin_(ir) * cos_(u), cos_(ir))
